@@ -1,6 +1,7 @@
 import PcfgVerif.Properties.OmenTrainCore
 import PcfgVerif.Lemmas.OmenProbLemmas
 import PcfgVerif.Lemmas.OmenFilesD
+import PcfgVerif.Lemmas.OmenCountLemmas
 import PcfgVerif.Lemmas.SoftFloatLemmas
 import PcfgVerif.Properties.ProbsCore
 /-!
@@ -75,6 +76,36 @@ theorem C18_saved_probability (t : TTables) (hwf : t.WF) (s0 : CState) (hs : t.t
   · rw [h2, ← hkv]; exact hk0
   · rw [hp, ctrGet_levelsCount, h3, h2, ← hkv]
     rfl
+
+/-- **C18 from the training list to the generator**, no hypothesis about tables or files left: `trainTTables` is the OMEN
+half of the trainer as a function of the password list (`Model/OmenCount.lean`; `lvl` = `_calc_level`, only its clamp is used),
+`loadTables` the guesser's loader on the files written from it.  Every line `(level, p)` of `pcfg_omen_prob`: the files load, and
+for the generator run over the loaded tables the level is enumerated completely after finitely many steps, is not empty, holds
+exactly `levelKeyspace level` strings (the number the trainer saved), and `p` is the fraction of the training passwords among them
+divided by their number. -/
+theorem C18_trained (lvl : Nat → Nat → Nat → Nat) (alphabetSize ngram minLength maxLength maxLevel : Nat)
+    (hn : 2 ≤ ngram) (hl : ∀ a b c, lvl a b c ≤ maxLevel) (pws : List Str) (maxKeyspace fuel first : Nat)
+    (level : Nat) (p : Rat) :
+    let t := trainTTables lvl alphabetSize ngram minLength maxLength maxLevel pws
+    (level, p) ∈ omenProbs ratNOps (t.calcKeyspace maxKeyspace fuel first) (t.levelsCount pws) pws.length →
+    ∃ tb, t.loadTables = some tb ∧ ∀ s0, tb.start = some s0 →
+      ∃ N, (∀ fuel', N ≤ fuel' → tb.enumFrom level fuel' s0 = tb.enumFrom level N s0) ∧
+        (tb.enumFrom level N s0).length = t.levelKeyspace level ∧ (tb.enumFrom level N s0).length ≠ 0 ∧
+        p = ((pws.countP (fun pw => decide (pw ∈ tb.enumFrom level N s0)) : Nat) : Rat) / (pws.length : Rat)
+              / ((tb.enumFrom level N s0).length : Rat) := by
+  intro t h
+  have hg := trainTTables_good lvl alphabetSize ngram minLength maxLength maxLevel hn hl pws
+  have hwf : t.WF := ⟨hg.ngram_ge, hg.keys_nodup, hg.key_len, hg.letters_nodup, hg.ip_levels, hg.cp_levels, hg.ln_levels⟩
+  obtain ⟨tb, hload, hsim⟩ := loadTables_sim t hg
+  refine ⟨tb, hload, fun s0 hs0 => ?_⟩
+  have hs : t.toTables.start = some s0 := by rw [← hsim.start]; exact hs0
+  obtain ⟨N1, h1, h2, h3⟩ := C18_saved_probability t hwf s0 hs pws maxKeyspace fuel first level p h
+  obtain ⟨N2, h4⟩ := C18_keyspace t hwf level s0 hs
+  refine ⟨max N1 N2, fun fuel' hf => ?_, ?_, ?_, ?_⟩
+  · rw [hsim.enumFrom, hsim.enumFrom, h1 fuel' (Nat.le_trans (Nat.le_max_left _ _) hf), h1 (max N1 N2) (Nat.le_max_left _ _)]
+  · rw [hsim.enumFrom]; exact h4 _ (Nat.le_max_right _ _)
+  · rw [hsim.enumFrom, h1 (max N1 N2) (Nat.le_max_left _ _)]; exact h2
+  · rw [hsim.enumFrom, h1 (max N1 N2) (Nat.le_max_left _ _)]; exact h3
 
 /-- no counted level is dropped for an empty keyspace: a level at which a training password lies has a
 non-empty keyspace, so if `calc_omen_keyspace` lists it, it receives a probability -/
